@@ -35,6 +35,8 @@ def run(ctx: Ctx) -> None:
     memo.rule_arg_names(ctx, _m3)
     memo.rule_fixed_width(ctx, _m3)
     memo.rule_paste_incomplete(ctx, _m3)
+    memo.rule_negative_start(ctx, _m3)
+    memo.rule_elim_no_pivot(ctx, _m3)
     repo = ctx.repo
     m = repo.module(TRS)
     sv = repo.anchor(TRS, "TimeReversedSolver.solve")
